@@ -15,6 +15,7 @@ CONSTANTS
   DsHist = 6
   DsOps = {"pk2d", "pk4d", "setmon", "reset"}
   NMon = 2
+  Neg = FALSE
   Shape = "simple"
 INVARIANT TypeOK
 INVARIANT CleanOK
